@@ -1016,12 +1016,12 @@ func main() {
 		},
 		Cases: func(tier string) int {
 			if tier == "thorough" {
-				return 8000
+				return 6000
 			}
-			return 500
+			return 400
 		},
 		Run: run,
-		Floors: map[string]int64{"verdicts_compared": 2000, "programs_compiled": 80, "split_configurations": 6, "packets_through_several_sub_programs": 100,
-			"verdict_allow": 250, "verdict_deny": 1500, "verdict_xdp-pass": 60, "ip_set_entries": 2000, "directed_aligned_split_variants": 50},
+		Floors: map[string]int64{"verdicts_compared": 1600, "programs_compiled": 60, "split_configurations": 5, "packets_through_several_sub_programs": 80,
+			"verdict_allow": 200, "verdict_deny": 1200, "verdict_xdp-pass": 50, "ip_set_entries": 1500, "directed_aligned_split_variants": 50},
 	})
 }
